@@ -384,6 +384,50 @@ pub fn ecdh_unpad(m: &[u8]) -> Option<Vec<u8>> {
     Some(m[..m.len() - p].to_vec())
 }
 
+/// A model-made ECDH key agreement towards the public (sub)key packet body `pub_body`
+/// (P-256 and Curve25519Legacy): picks an ephemeral scalar (the first one from `start` whose
+/// shared secret begins with `leading_zeros` zero octets), and returns (ephemeral point as it
+/// goes into the PKESK MPI, key-wrap key per RFC 9580 11.5, shared secret).
+pub fn ecdh_model_agree(pub_body: &[u8], fingerprint: &[u8], start: u64, leading_zeros: usize) -> Option<(Vec<u8>, Vec<u8>, Vec<u8>)> {
+    use super::codec;
+    let d = codec::decode_packet(14, pub_body).ok()?;
+    let codec::Summary::Key(k) = &d.summary else { return None };
+    let pubmat = &pub_body[k.material.0..k.material.1];
+    let oid_len = *pubmat.first()? as usize;
+    let oid = pubmat.get(1..1 + oid_len)?;
+    let kdfp = pubmat.get(pubmat.len() - 4..)?;
+    let (kdf_hash, kek_alg) = (kdfp[2], kdfp[3]);
+    let point = pubmat.get(1 + oid_len + 2..pubmat.len() - 4)?;
+    for i in 0..20_000u64 {
+        let seed = start + i;
+        let (eph_point, z): (Vec<u8>, Vec<u8>) = if oid == [0x2B, 0x06, 0x01, 0x04, 0x01, 0x97, 0x55, 0x01, 0x05, 0x01] {
+            let mut sk = [0x42u8; 32];
+            sk[..8].copy_from_slice(&seed.to_le_bytes());
+            let esec = x25519_dalek::StaticSecret::from(sk);
+            let epub = x25519_dalek::PublicKey::from(&esec);
+            let recip: [u8; 32] = point.get(1..33)?.try_into().ok()?;
+            let sh = esec.diffie_hellman(&x25519_dalek::PublicKey::from(recip));
+            ([&[0x40u8][..], epub.as_bytes()].concat(), sh.as_bytes().to_vec())
+        } else if oid == [0x2A, 0x86, 0x48, 0xCE, 0x3D, 0x03, 0x01, 0x07] {
+            use p256::elliptic_curve::sec1::{FromEncodedPoint, ToEncodedPoint};
+            let mut sk = [0x11u8; 32];
+            sk[24..].copy_from_slice(&seed.to_be_bytes());
+            let esk = p256::SecretKey::from_slice(&sk).ok()?;
+            let ep = p256::EncodedPoint::from_bytes(point).ok()?;
+            let pkp = Option::<p256::PublicKey>::from(p256::PublicKey::from_encoded_point(&ep))?;
+            let sh = p256::ecdh::diffie_hellman(esk.to_nonzero_scalar(), pkp.as_affine());
+            (esk.public_key().to_encoded_point(false).as_bytes().to_vec(), sh.raw_secret_bytes().to_vec())
+        } else {
+            return None;
+        };
+        if z.iter().take(leading_zeros).all(|b| *b == 0) && (leading_zeros == 0 || z.iter().take_while(|b| **b == 0).count() >= leading_zeros) {
+            let kek = ecdh_kek(&z, oid, kdf_hash, kek_alg, fingerprint);
+            return Some((eph_point, kek, z));
+        }
+    }
+    None
+}
+
 /// Binds the model to the specification: the RFC 9580 sample messages shipped in /repo/tests.
 pub fn self_test() -> Result<(), String> {
     use super::{codec, crypto};
